@@ -257,7 +257,10 @@ def formula(compound=None, density=None, natural_density=None,
             seq_type, seq = compound.split(':', 1)
             if seq_type in fasta.CODE_TABLES:
                 seq = fasta.Sequence(name=None, sequence=seq, type=seq_type)
-                return seq.labile_formula
+                chem = seq.labile_formula
+                if table is not None:
+                    chem.change_table(table)
+                return chem
         try:
             chem = parse_formula(compound, table=table)
             if name:
